@@ -17,7 +17,7 @@ META = {
                    'client\'s own window width are listed as client-side); an error of decompress() is propagated; (R19.4) the address polynomials '
                    'are exactly row i of the image (i * bitmap.width) to row (i + dest_top) * window_width + dest_left, count = right - left + 1, '
                    'i over 0..=bottom-top, the row stride passed by the caller is the window width the buffer was allocated with, and nothing else '
-                   'writes the buffer. Decides these structural clauses, not the contents of the window after an arbitrary sequence of bitmaps.',
+                   'writes the buffer. (R19.5) decompress(), which produces the image, is total (rules R08.1/R08.3/R08.6 of C08). Decides these structural clauses, not the contents of the window after an arbitrary sequence of bitmaps.',
     'assumptions': ['the window width times (rectangle row + 1) fits in usize (client-chosen window size)',
                     'Vec::len() <= isize::MAX (std invariant), copy_nonoverlapping / offset contracts as documented by std'],
     'trusted_base': ['rustc nightly MIR construction', 'mirfacts exporter', 'rules/c19.py, poly.py, hpa.py, hpa_report.py, sym.py, facts.py'],
@@ -249,6 +249,11 @@ def run(ctx):
                               'a decompress() failure does not make fast_bitmap_transfer return Err (returns %s)' % rk)
     ctx.floor('R19.3', 'decompress() failure paths', n_err, 1)
 
+
+    # ---- R19.5 the image handed to the painter comes from BitmapEvent::decompress, which must itself be total: its panic-freedom and bounds
+    #      obligations (rules R08.1 / R08.3 / R08.6 of C08, evaluated on the same facts) are part of "painting never panics" ----------------
+    import c08
+    ctx.include(c08.run, ('R08.1', 'R08.3', 'R08.6'), 'R19.5')
 
 def pso_expr(e):
     return e if e is not None else ('const', 0, '0')
